@@ -24,4 +24,8 @@ def queries(tier):
         qs.append(Query('scalar-root/k%d' % k, H, 'h_scalar_root', {'K': k, 'LEN': 2}, bounds=B, default_unwind=4, default_rec=3, timeout=300, mem_gb=8, leak=True))
     for n in (0, 1, 2):
         qs.append(Query('real-stream/n%d' % n, H, 'h_real_stream', {'N': n}, bounds=B, default_unwind=4, default_rec=3, timeout=300, mem_gb=8, leak=True))
+    for e1, e2 in ((10, 8), (0, 9), (3, 20), (20, 0), (3, 3)):
+        qs.append(Query('roundtrip/n2/e%d/e%d' % (e1, e2), H, 'h_roundtrip', {'N': 2, 'E1': e1, 'E2': e2}, bounds=dict(B, **{'TrimLeft': 3, 'parseArray': 4, 'UnEscape': 3}),
+                        default_unwind=4, rec_bounds={'parse.*': 3}, default_rec=3, timeout=300, mem_gb=8, leak=True))
+    qs.append(Query('roundtrip/n0', H, 'h_roundtrip', {'N': 0}, bounds=dict(B, **{'TrimLeft': 3, 'parseArray': 4}), default_unwind=4, rec_bounds={'parse.*': 3}, default_rec=3, timeout=300, mem_gb=8, leak=True))
     return qs
